@@ -81,7 +81,7 @@ CHECKS = {
    "DESIGN.md §4 C07", "E3 component"),
  "C08": ("fault_enumeration",
    "runtime monitor: shutdown/tear-down instant swept (virtual time in simnet; 250 us grid in real-socket sub-processes) + panic hook + hang diagnosis",
-   "E1: simulated shutdown (by shutdown() or by dropping the last handle) of a network with a seeded in-flight mix at an instant swept in 100 us/1 ms steps, optionally together with a burst of 100-400 API calls that saturates the connection manager's mailbox; completes within shutdown_idle_timeout + 1 s, then closed/no peers/subscribe errs/weak refs dead/0 live service clones, subscriber gets LostPeer then end-of-stream, pending and later API calls return errors, remote peers drop the network, no panic. E2: sub-process trials on real UDP sockets and a 4-worker runtime; the runtime is dropped (handles alive / dropped first / during shutdown / after shutdown) on a 0-50 ms grid; no panic line, exit 0, drop(runtime) returns (a hang is a violation only when gdb shows a spinning connection-manager thread), address re-bindable at once after shutdown().",
+   "E1: simulated shutdown (by shutdown() or by dropping the last handle) of a network with a seeded in-flight mix at an instant swept in 100 us/1 ms steps, optionally together with a burst of 100-400 API calls that saturates the connection manager's mailbox; completes within shutdown_idle_timeout + 1 s, then closed/no peers/subscribe errs/weak refs dead/0 live service clones, subscriber gets LostPeer then end-of-stream, pending and later API calls return errors, remote peers drop the network, no panic. E2: sub-process trials on real UDP sockets and a 4-worker runtime; the runtime is dropped (handles alive / dropped first / during shutdown / after shutdown) on a 0-50 ms grid; two thirds of the trials start the delay clock at the first answered RPC, half of the shutdown trials keep a handler inside a non-yielding section in flight; no panic line, exit 0, drop(runtime) returns (a hang is a violation only when gdb shows a spinning connection-manager thread), and when shutdown() returns: address re-bindable at once, closed, no peers, 0 live service clones, no handler of the network still running.",
    "Tear-down instants depend on OS scheduling; two defects found this way were repaired (fix: commits), one is a recorded finding.",
    "DESIGN.md §4 C08", "E1 simnet + E2 realnet sub-process"),
  "C16": ("exploration",
@@ -91,7 +91,7 @@ CHECKS = {
    "DESIGN.md §4 C16", "E3 component"),
  "C17": ("exploration",
    "runtime monitor over generated programs: AST cross-check of generator output + compiled driver of generated clients/servers",
-   "Generator level: thousands of seeded definitions through anemo_build's generators; method->route maps read off the client and server ASTs must agree and lie under '/'+SERVICE_NAME+'/'. Execution level: batches of 12 generated services compiled by /verif/harness-codegen; every client method is called through Router::add_rpc_service with 8 scripted outcomes and every shape of error Status (code only, message only incl. non-ASCII/5 kB/empty, headers only, both); handler log, results, statuses (code, message, headers), undecodable payloads and unknown routes are judged.",
+   "Generator level: thousands of seeded definitions through anemo_build's generators; method->route maps read off the client and server ASTs must agree and lie under '/'+SERVICE_NAME+'/'. Execution level: batches of 12 generated services compiled by /verif/harness-codegen; every client method is called through Router::add_rpc_service with 8 scripted outcomes and every shape of error Status (code only, message only incl. non-ASCII/5 kB/empty, headers only, both); a request and a typed response that cannot be encoded (serialization fails after the other fields were written), each followed by an ordinary call; handler log, results, statuses (code, message, headers), undecodable payloads and unknown routes are judged.",
    "Only identifier-shaped definitions; Attributes not varied.",
    "DESIGN.md §4 C17", "E4 codegen"),
  "C18": ("exploration",
